@@ -26,7 +26,7 @@ ASSUMPTIONS = [
     "re-appending an existing member of a link list may keep or move its position",
 ]
 
-ENABLED = (ops.CREATE * 2 + ops.SETTERS * 2 + ops.LINKS + ops.DATA + ops.FRAME + ["frame_grow"] * 4 + ops.DELETE + ["del"] * 6 + ["force_ts"] * 5 + ["flush"] + ["reopen"] * 8 + ["overwrite"] * 10 + ["relink"] * 12 + ["multi_append"] * 12)
+ENABLED = (ops.CREATE * 2 + ops.SETTERS * 2 + ops.LINKS + ops.DATA + ["prop_set_other"] * 2 + ops.FRAME + ["frame_grow"] * 4 + ops.DELETE + ["del"] * 6 + ["force_ts"] * 5 + ["flush"] + ["reopen"] * 8 + ["overwrite"] * 10 + ["relink"] * 12 + ["multi_append"] * 12)
 
 
 def keyify(path):
